@@ -92,6 +92,7 @@ func (e *Engine) loadContracts(verifDir string, extra string) error {
 			return err
 		}
 	}
+	sp.finishSweep()
 	e.spec = sp
 	return nil
 }
